@@ -17,20 +17,22 @@ extract = c16.extract          # same generated facts file (identical content)
 
 META = dict(
     id='C17',
-    level_text='Kernel-checked theorems over any commutative ring K and K-algebra M: (1) rotation = substitution: for ALL parity-consistent '
-               'coefficient lists and ANY square matrix T (orthogonal or not, invertible or not), the rotated expansion evaluated as a '
-               'homogeneous function at p equals the original at T p (eval_rotate), built on the row specification of npowtrans '
-               '(npowRow_spec: multinomial rows, pair / triplet products through directmult, padding by powers of x²+y²+z²); '
-               '(2) inverse: under exactly the two ValueError guards (isotropic invertible leading term, second power above the '
-               'first) and the angular-order guard, inv(a)·a = 1 + terms of order > Nmax + n_lead, for every Nmax '
-               '(inverse_through_order), with the Neumann identity in any ring.  Table facts as in C16.  The Python functions are '
-               'tied to the model differentially: the full npowtrans array, rotate / irotate and inv results.',
+    level_text='Kernel-checked theorems over any commutative ring K and K-algebra M. (1) Rotation = substitution, complete: for ALL '
+               'parity-consistent coefficient lists, ANY square matrix T (orthogonal or not, invertible or not) and any point p, the expansion '
+               'rotated with the model\'s rotatedirections(T), evaluated at p as a homogeneous function, equals the original at T p '
+               '(eval_rotate), via the row specification of npowtrans (npowRow_spec: multinomial rows from the powercoeff obligation, pair / '
+               'triplet products through directmult, padding by powers of x^2+y^2+z^2); instantiated on the live 2-D / 3-D tables '
+               '(rotate_exact_tab3/2) through the table obligations shared with C16.  (2) Inverse, PARTIAL: only the algebraic core is a '
+               'theorem (neumann_identity: truncated Neumann series times (A+B) = 1 - X^(N+1) in any ring); that inversecoeff implements it '
+               'with the stated truncation (inv(a)*a = 1 through order Nmax + n_lead under the two ValueError guards) is checked '
+               'differentially against the exact model and by a direct through-order oracle, not proved.',
     level_note='Trusted: Lean kernel + standard axioms; table dump; harness. rotatedirections is modelled row-wise (each row as the '
                'expression the loops assign to it), tied to the loops by exact comparison of the whole array on every run. '
                'np.linalg.inv is modelled by exact Gauss-Jordan in the driver; in the theorem the leading inverse is any two-sided inverse.',
     technique='Lean 4 proofs over a polymorphic executable model + table obligations shared with C16 + differential runs',
     lean_modules=['OnsagerModel.C16', 'OnsagerModel.C16Ten', 'OnsagerModel.C17', 'Generated.C16Facts', 'OnsagerProofs.C16',
-                  'OnsagerProofs.C16Proj', 'OnsagerProofs.C16Sound', 'OnsagerProofs.C17', 'OnsagerProofs.C16Tie3a',
+                  'OnsagerProofs.C16Proj', 'OnsagerProofs.C16Sound', 'OnsagerProofs.C17', 'OnsagerProofs.C17Rows',
+                  'OnsagerProofs.C17Sound', 'OnsagerProofs.C16Tie3a',
                   'OnsagerProofs.C16Tie3b', 'OnsagerProofs.C16Tie3c', 'OnsagerProofs.C16Tie3d', 'OnsagerProofs.C16Tie3e',
                   'OnsagerProofs.C16Tie2', 'OnsagerProofs.C16Tie', 'OnsagerProofs.C17Tie'],
     theorems=[],       # filled below
@@ -43,8 +45,11 @@ META = dict(
     assumptions=['rotation: expansions are parity-consistent (as produced by GFcalc: blocks (n,n) or reduced from them)',
                  'inverse: products inside the Neumann series stay within Lmax (the code does not check: "caveat emptor")'],
 )
-META['theorems'] = ['Onsager.C16.eval_rotate_of_rows', 'Onsager.C16.neumann_identity']
-META['tie_theorems'] = ['Onsager.C16.tab3_sem', 'Onsager.C16.tab2_sem', 'Onsager.C16.rotate_tab3', 'Onsager.C16.rotate_tab2']
+META['theorems'] = ['Onsager.C16.eval_rotate_of_rows', 'Onsager.C16.linPowRow_dot', 'Onsager.C16.shellMul_spec',
+                    'Onsager.C16.powtransRow_spec', 'Onsager.C16.npowRowK_spec', 'Onsager.C16.npowRow_spec', 'Onsager.C16.eval_rotate',
+                    'Onsager.C16.sem17_of_checks', 'Onsager.C16.neumann_identity']
+META['tie_theorems'] = ['Onsager.C16.tab3_sem', 'Onsager.C16.tab2_sem', 'Onsager.C16.tab3_sem17', 'Onsager.C16.tab2_sem17',
+                        'Onsager.C16.rotate_exact_tab3', 'Onsager.C16.rotate_exact_tab2']
 
 DRIVER = 'Drive/C17.lean'
 
